@@ -75,6 +75,7 @@ static int g_live = 0;                 // unfinished threads
 static int g_cond_blocked = 0;
 static uint64_t g_clock = 1700000000ULL * 1000000ULL;
 static int g_burst_left = 0;
+static uint64_t g_budget_base = 0;
 static std::vector<uint64_t> g_pct_points;
 static fatal_fn g_fatal = nullptr;
 
@@ -283,6 +284,7 @@ void reset(const SchedConfig &cfg) {
   g_rng = Rng(cfg.seed ^ 0x5C4ED);
   g_live = 1;
   g_burst_left = 0;
+  g_budget_base = 0;
   g_clock = 1700000000ULL * 1000000ULL;
   self->no_preempt = 0;
   self->prio = 1000 + g_rng.below(1000);
@@ -292,6 +294,7 @@ void reset(const SchedConfig &cfg) {
 }
 
 const SchedStats &stats() { return g_stats; }
+void budget_reset() { g_budget_base = g_stats.steps; }
 uint64_t step() { return g_stats.steps; }
 uint64_t clock_usec() { return g_clock; }
 void clock_jump(int64_t d) { g_clock = (uint64_t)((int64_t)g_clock + d); }
@@ -309,7 +312,7 @@ void yield_point(int kind, const void *obj) {
   g_stats.by_kind[kind]++;
   g_clock += 1 + (s & 7);
   hmix((uint64_t)kind, (uint64_t)self->tid);
-  if (s > g_cfg.max_steps) fatal("step-budget", "run exceeded its scheduler step budget");
+  if (s - g_budget_base > g_cfg.max_steps) fatal("step-budget", "run exceeded its scheduler step budget");
   if (g_live == 1) return;
   if (kind == Y_ATOMIC && !g_cfg.atomics_yield) return;
   if (!g_pct_points.empty())
